@@ -69,7 +69,7 @@ var pureStd = map[string]bool{
 	"math": true, "math/bits": true, "math/big": true, "sort": true, "slices": true, "unicode": true, "unicode/utf8": true,
 	"unicode/utf16": true, "embed": true, "path": true, "log": true, "regexp": true, "encoding/json": true,
 	"net/http": true, "io": true, "io/fs": true, "bufio": true, "cmp": true, "iter": true, "context": true,
-	"hash/fnv": true, "hash/crc32": true, "hash/maphash": false, "crypto/sha256": true, "crypto/sha1": true, "crypto/md5": true,
+	"hash/fnv": true, "hash/crc32": true, "hash/maphash": true, "crypto/sha256": true, "crypto/sha1": true, "crypto/md5": true,
 	"encoding/hex": true, "encoding/base64": true, "text/tabwriter": true, "html/template": true, "text/template": true,
 	"runtime/debug": true, "net/url": true, "container/list": true, "container/heap": true, "sync/atomic": true, "testing": true,
 }
